@@ -107,7 +107,7 @@ def main():
         case = rp['case']
         o = lib.run_impl(prop, [case], per_case_timeout=getattr(mod, 'CASE_TIMEOUT', 20))[0]
         fails = mod.oracle(case, o) or []
-        kbad = mod.correspond([case], [o], 'replay_' + prop, a.tier) if model_ok else ([], [])
+        kbad = mod.correspond([case], [o], lib.run_tag('replay_' + prop), a.tier) if model_ok else ([], [])
         print(json.dumps({'impl_observation': o, 'oracle_failures': fails, 'correspondence_mismatch': kbad[0], 'coq_errors': kbad[1]}, indent=1, default=str))
         bad = [f for f in fails if f['sig'] not in known_sigs]
         if bad or kbad[0]:
@@ -130,6 +130,14 @@ def main():
                     seen.add(h)
                     cases.append(c)
     obs = lib.run_impl(prop, cases, per_case_timeout=getattr(mod, 'CASE_TIMEOUT', 20))
+    # A case that hit the wall-clock watchdog is re-run on its own with a much longer limit before anything is concluded
+    # from it: on a loaded machine (or for the first case of a worker, which pays for the imports) the limit can be exceeded
+    # by code that does return.  Only a timeout that persists is an observation.
+    slow = [i for i, o in enumerate(obs) if o is not None and o.get('timeout')]
+    if slow:
+        again = lib.run_impl(prop, [cases[i] for i in slow], per_case_timeout=10 * getattr(mod, 'CASE_TIMEOUT', 20), workers=min(4, lib.NPROC))
+        for i, o in zip(slow, again):
+            obs[i] = o
     herr = [(i, o) for i, o in enumerate(obs) if o is None or o.get('harness_error') or o.get('crash')]
     if herr and not lib.changed_sources(None):
         print('HARNESS-ERROR %s: %d cases, first: case=%s obs=%s' % (prop, len(herr), json.dumps(cases[herr[0][0]])[:300], herr[0][1]))
@@ -146,7 +154,7 @@ def main():
         obs = [obs[i] for i in keep]
     k_bad, k_err = ([], [])
     if model_ok:
-        k_bad, k_err = mod.correspond(cases, obs, prop, a.tier)
+        k_bad, k_err = mod.correspond(cases, obs, lib.run_tag(prop), a.tier)
         if k_err:
             print('HARNESS-ERROR %s: model run failed: %s' % (prop, k_err[0][:800]))
             return 2
